@@ -432,8 +432,16 @@ var c08Shapes = []J{
 	{"type": "object", "additionalProperties": J{"$ref": "#/components/schemas/Y"}},
 	{"$ref": "#/components/schemas/Y"},
 	{"type": "array", "items": J{"type": "array", "items": J{"type": "integer"}}},
+	// items that need a declaration of their own (enum; object with additional members; union): the slice is of that type
+	{"type": "array", "items": J{"type": "string", "enum": []interface{}{"a", "b"}}},
+	{"type": "array", "items": J{"type": "object", "properties": J{"n": J{"type": "string"}}, "additionalProperties": J{"type": "integer"}}},
+	{"type": "array", "items": J{"oneOf": []interface{}{J{"$ref": "#/components/schemas/Y"}, J{"type": "string"}}}},
 }
-var c08ShapeDoc = []string{"[]string", "[]Y", "map[string]interface{}", "map[string]interface{}", "map[string]int", "map[string]Y", "Y", "[][]int"}
+var c08ShapeDoc = []string{"[]string", "[]Y", "map[string]interface{}", "map[string]interface{}", "map[string]int", "map[string]Y", "Y", "[][]int",
+	"[]X_Item", "[]X_Item", "[]X_Item"}
+
+// as the member m of H the item type is named after the path to it
+var c08ShapeDocMember = map[int]string{8: "[]HM", 9: "[]H_M_Item", 10: "[]H_M_Item"}
 
 type c08ShapeRow struct {
 	Shape    int
@@ -586,6 +594,9 @@ func runC08(ctx *Ctx) error {
 		ctx.Res.Count("cell:shape")
 		want := c08ShapeDoc[r.Shape]
 		if r.AsMember {
+			if m, ok := c08ShapeDocMember[r.Shape]; ok {
+				want = m
+			}
 			want = "*" + want
 		}
 		if r.Got != want {
